@@ -27,6 +27,25 @@ inductive HookEvent
   | finish (tok : Option Nat) (err : Bool) (panicked : Bool)
   deriving Repr, DecidableEq
 
+/-- Result of running a piece of Go code that may panic. -/
+inductive Go (α : Type)
+  | ret (a : α)
+  | panicked
+  deriving Repr, DecidableEq
+
+/-- The scripted hook's `OnDispatchStart`: mints `tok`, records the entry, then returns the token
+or panics. -/
+def hookOnStart (mode : HookMode) (tok : Nat) : Go Nat × List HookEvent :=
+  match mode with
+  | .panicStart => (.panicked, [.start tok true])
+  | _ => (.ret tok, [.start tok false])
+
+/-- The scripted hook's `OnDispatchEnd`: records token and `err != nil`, then returns or panics. -/
+def hookOnEnd (mode : HookMode) (token : Option Nat) (handlerErr : Bool) : Go Unit × List HookEvent :=
+  match mode with
+  | .panicEnd => (.panicked, [.finish token handlerErr true])
+  | _ => (.ret (), [.finish token handlerErr false])
+
 /-- State after the protected start block: `hookToken`, `hookActive`. -/
 structure StartState where
   token : Option Nat
@@ -34,17 +53,22 @@ structure StartState where
   deriving Repr, DecidableEq
 
 /-- `func() { defer recover…; hookCtx, hookToken = hook.OnDispatchStart(ctx, info); …; hookActive = true }()`.
-A panic in `OnDispatchStart` unwinds before either assignment: the token stays nil and the hook
-stays inactive. A nil returned context leaves `ctx` alone. -/
+A panic in `OnDispatchStart` unwinds before either assignment and is recovered: the token stays
+nil, the hook stays inactive, and the block returns normally. A nil returned context leaves
+`ctx` alone. -/
 def hookStart (mode : HookMode) (tok : Nat) : StartState × List HookEvent :=
-  match mode with
-  | .panicStart => ({ token := none, active := false }, [.start tok true])
-  | _ => ({ token := some tok, active := true }, [.start tok false])
+  match hookOnStart mode tok with
+  | (.ret t, ev) => ({ token := some t, active := true }, ev)
+  | (.panicked, ev) => ({ token := none, active := false }, ev)      -- recover()
 
 /-- `if hookActive { func() { defer recover…; hook.OnDispatchEnd(ctx, hookToken, info, stats, handlerErr) }() }`
-(pipe) / the deferred `cleanup` (HTTP). A panic in `OnDispatchEnd` is swallowed. -/
+(pipe) / the deferred `cleanup` (HTTP). A panic in `OnDispatchEnd` is recovered. -/
 def hookEnd (st : StartState) (mode : HookMode) (handlerErr : Bool) : List HookEvent :=
-  if st.active then [.finish st.token handlerErr (mode == .panicEnd)] else []
+  if st.active then
+    match hookOnEnd mode st.token handlerErr with
+    | (.ret (), ev) => ev
+    | (.panicked, ev) => ev                                             -- recover()
+  else []
 
 /-- The hook-independent result of dispatching one call. -/
 structure CallOutcome where
@@ -53,16 +77,29 @@ structure CallOutcome where
   handlerErr : Bool      -- `handlerErr != nil` at the point the end hook runs
   deriving Repr, DecidableEq
 
-/-- One call with an optional hook installed: the response is the body's (the hook only sees
-it), the events are start … end around it. -/
-def dispatch (hook : Option HookMode) (tok : Nat) (o : CallOutcome) : List HookEvent :=
+/-- One call with an optional hook installed. The body runs between start and end and never sees
+the hook (only a context value); what the call answers is the body's outcome. Returns that
+outcome as seen by the serve loop / net/http (`Go.panicked` would be a panic escaping the
+dispatch) and the hook's event log. -/
+def dispatchCall (hook : Option HookMode) (tok : Nat) (o : CallOutcome) : Go CallOutcome × List HookEvent :=
   match hook with
-  | none => []
+  | none => (.ret o, [])
   | some mode =>
-    if !o.dispatched then []
+    if !o.dispatched then (.ret o, [])
     else
       let (st, ev) := hookStart mode tok
-      ev ++ hookEnd st mode o.handlerErr
+      (.ret o, ev ++ hookEnd st mode o.handlerErr)
+
+def dispatch (hook : Option HookMode) (tok : Nat) (o : CallOutcome) : List HookEvent :=
+  (dispatchCall hook tok o).2
+
+/-- Every `OnDispatchStart` entry consumes one token of the hook's counter. -/
+def nextToken (tok : Nat) (o : CallOutcome) : Nat := if o.dispatched then tok + 1 else tok
+
+/-- A history of calls against one server with the hook installed: the event log of each call. -/
+def historyEvents : Nat → List (HookMode × CallOutcome) → List (List HookEvent)
+  | _, [] => []
+  | tok, (m, o) :: rest => dispatch (some m) tok o :: historyEvents (nextToken tok o) rest
 
 /-! ### Outcomes of the pipe call kinds -/
 
@@ -154,6 +191,13 @@ inductive HttpInput
   | cancel
   deriving Repr, DecidableEq
 
+/-- The cast `handleStreamExchange` applies before anything else when the method has a registered
+input schema. -/
+def httpCasted (m : SMethod) (src : Schema) (v : String) (lib : Option String) : Except SrvErr String :=
+  match m.inputSchema with
+  | some tgt => castInput src tgt v lib
+  | none => .ok v
+
 /-- `handleStreamExchange` for a client holding a token with cursor `k`. An input batch that does
 not cast to the registered input schema is refused (400) before the hook is started. -/
 def httpExchange (m : SMethod) (limit : Nat) (s : StreamScript) (isProducer : Bool) (k : Nat)
@@ -163,11 +207,7 @@ def httpExchange (m : SMethod) (limit : Nat) (s : StreamScript) (isProducer : Bo
     -- handleStreamCancel: OnCancel (errors/panics swallowed), empty stream, nil handlerErr
     { outcome := { dispatched := true, respError := false, handlerErr := false }, token := none }
   | .data v lib =>
-    let casted : Except SrvErr String :=
-      match m.inputSchema with
-      | some tgt => castInput src tgt v lib
-      | none => .ok v
-    match casted with
+    match httpCasted m src v lib with
     | .error _ => { outcome := { dispatched := false, respError := true, handlerErr := false }, token := none }
     | .ok inVal =>
       if isProducer then producerResponse s limit k true
